@@ -73,10 +73,10 @@ class C02(HistoryCheck):
     RUNS = {"quick": 1500, "thorough": 30000}
     # init=False attributes are never initialised on instances, so instance.attr *is* the class-level default
     # object and in-place element helpers edit it for every instance (C08 territory, and excluded there too).
-    PROFILE = {"allow_frozen": False, "allow_class_dnc": False, "allow_init_false": False}
+    PROFILE = {"allow_frozen": False, "allow_class_dnc": False, "allow_init_false": False, "allow_mutable_props": True}
     # the property quantifies over "transforms that return new objects": functions handing back their input are out
     OPGEN = {"p_bad": 0.1, "p_inplace": 0.2, "exclude_fns": ["ident", "missing", "rev"], "p_alias": 0.4,
-             "weights": {"new": 2, "scalar": 6, "element": 8, "toplevel": 3, "set": 3, "del": 1, "get": 1,
+             "weights": {"new": 2, "scalar": 6, "element": 8, "toplevel": 3, "set": 3, "del": 1, "get": 3,
                          "deepcopy": 2.5, "mutate": 0}}
     N_OPS = {"quick": (5, 14), "thorough": (8, 24)}
     RULE = ("after each copy-on-write helper / deepcopy of a seeded history: identity-graph intersection of receiver and "
